@@ -39,6 +39,9 @@ pub struct SrcCase {
 	/// bit k set: the filter rejects signal kind k
 	pub reject: u8,
 	pub steps: Vec<(u16, Act)>,
+	/// the keyboard source is switched (on <-> off) this many times at run time before the steps start
+	#[serde(default)]
+	pub toggles: u8,
 }
 
 pub fn strategy() -> BoxedStrategy<SrcCase> {
@@ -48,8 +51,9 @@ pub fn strategy() -> BoxedStrategy<SrcCase> {
 		proptest::bool::weighted(0.7),
 		prop_oneof![2 => Just(0u8), 3 => 0u8..64],
 		proptest::collection::vec((prop_oneof![Just(2u16), Just(15), Just(60), Just(150)], act), 1..9),
+		prop_oneof![3 => Just(0u8), 1 => Just(1), 1 => Just(2), 1 => Just(3)],
 	)
-		.prop_map(|(throttle, keyboard, reject, steps)| SrcCase { throttle, keyboard, reject, steps })
+		.prop_map(|(throttle, keyboard, reject, steps, toggles)| SrcCase { throttle, keyboard, reject, steps, toggles })
 		.boxed()
 }
 
@@ -60,6 +64,8 @@ pub fn probe_path() -> std::path::PathBuf {
 pub fn run(c: &SrcCase) -> Outcome {
 	let mut o = Outcome::pass();
 	let logs = Logs::new("vh-c01s-");
+	// the state the keyboard source is in when the steps start
+	let keyboard_on = c.keyboard ^ (c.toggles % 4 % 2 == 1);
 	let rejected: Vec<&str> = KINDS.iter().enumerate().filter(|(k, _)| c.reject & (1 << k) != 0).map(|(_, x)| x.0).collect();
 	let child = Command::new(probe_path())
 		.arg("--log")
@@ -70,6 +76,8 @@ pub fn run(c: &SrcCase) -> Outcome {
 		.arg(if c.keyboard { "1" } else { "0" })
 		.arg("--reject")
 		.arg(rejected.join(","))
+		.arg("--keyboard-toggles")
+		.arg((c.toggles % 4).to_string())
 		.stdin(Stdio::piped())
 		.stdout(Stdio::null())
 		.stderr(Stdio::null())
@@ -132,7 +140,7 @@ pub fn run(c: &SrcCase) -> Outcome {
 		}
 	}
 	// quiescence: every event sent has been either handled or rejected by the filter, or 3 s
-	let total: usize = sent.iter().sum::<usize>() + usize::from(closed && c.keyboard);
+	let total: usize = sent.iter().sum::<usize>() + usize::from(closed && keyboard_on);
 	let until = mono_ns() + 3_000_000_000 + u64::from(c.throttle) * 1_000_000;
 	loop {
 		let l = logs.lines();
@@ -152,13 +160,13 @@ pub fn run(c: &SrcCase) -> Outcome {
 	if c.steps.iter().any(|(_, a)| matches!(a, Act::Signal(_))) {
 		o.label("signals");
 	}
-	if closed && c.keyboard {
+	if closed && keyboard_on {
 		o.label("keyboard-eof");
 	}
 	if !rejected.is_empty() && (0..6).any(|k| sent[k] > 0 && c.reject & (1 << k) != 0) {
 		o.label("rejected-signal-sent");
 	}
-	o.nontrivial = sent.iter().sum::<usize>() >= 2 || (closed && c.keyboard);
+	o.nontrivial = sent.iter().sum::<usize>() >= 2 || (closed && keyboard_on);
 	if died {
 		if evs.is_empty() && lines.iter().all(|l| l.first().map(String::as_str) != Some("mainend")) {
 			// killed by the default action of the very first signal: the listeners were not registered yet
@@ -172,7 +180,7 @@ pub fn run(c: &SrcCase) -> Outcome {
 		o.fail("empty-batch", format!("the action handler was invoked with an empty batch{}", dump()));
 		return o;
 	}
-	let mut owed = usize::from(closed && c.keyboard);
+	let mut owed = usize::from(closed && keyboard_on);
 	for (k, (name, _, _)) in KINDS.iter().enumerate() {
 		let n = evs.iter().filter(|l| l.iter().any(|t| t == &format!("sig:{name}"))).count();
 		// the filter is consulted for non-urgent events only; every "false" it returned is one event that
@@ -198,7 +206,7 @@ pub fn run(c: &SrcCase) -> Outcome {
 		}
 	}
 	let eofs = evs.iter().filter(|l| l.iter().any(|t| t == "kbd:Eof")).count();
-	let want = usize::from(closed && c.keyboard);
+	let want = usize::from(closed && keyboard_on);
 	if eofs != want {
 		o.fail(
 			if eofs < want { "real-sources:keyboard-eof-never-delivered" } else { "real-sources:unexpected-keyboard-eof" },
